@@ -135,6 +135,11 @@ def pmap(func, items, extra=(), chunks=None, workers=None):
     if workers <= 1 or len(parts) == 1:
         outs = [_worker((func, p, extra)) for p in parts]
     else:
+        # move the parent's heap out of the collector's reach so that forked workers do not
+        # copy every page on their first garbage collection
+        import gc
+        gc.collect()
+        gc.freeze()
         ctx = multiprocessing.get_context("fork")
         with ctx.Pool(workers) as pool:
             outs = pool.map(_worker, [(func, p, extra) for p in parts], chunksize=1)
